@@ -346,6 +346,13 @@ impl World {
     //--- fingerprints -------------------------------------------------------
 
     fn finger(&self) -> Finger {
+        let t0 = std::time::Instant::now();
+        let res = self.finger_inner();
+        T_FINGER.fetch_add(t0.elapsed().as_micros() as u64, std::sync::atomic::Ordering::Relaxed);
+        res
+    }
+
+    fn finger_inner(&self) -> Finger {
         let mut parts = BTreeMap::new();
         let cam = self.env.krill.ca_manager();
         for srv in ["P", "O"] {
@@ -379,8 +386,10 @@ impl World {
             repo.push_str(&canon(&stats));
         }
         parts.insert("repo".into(), hash_str(&repo));
+        let td = std::time::Instant::now();
         let mut files = Vec::new();
         walk(&self.env.dir, &self.env.dir, &mut files);
+        T_DISK.fetch_add(td.elapsed().as_micros() as u64, std::sync::atomic::Ordering::Relaxed);
         files.sort();
         // key material created by the harness itself is excluded by
         // taking the fingerprint after the message has been built
@@ -407,13 +416,19 @@ impl World {
         let mut reg = serde_json::Map::new();
         let mut ent = serde_json::Map::new();
         let mut iss = serde_json::Map::new();
+        let mut susp = serde_json::Map::new();
+        let mut held = serde_json::Map::new();
         let mut srv_state = serde_json::Map::new();
         for srv in ["P", "O"] {
             let mut reg_s = serde_json::Map::new();
             let mut ent_s = serde_json::Map::new();
             let mut iss_s = serde_json::Map::new();
+            let mut susp_s = serde_json::Map::new();
+            let mut held_s = serde_json::Map::new();
             match cam.get_ca(&server_handle(srv)) {
                 Ok(ca) => {
+                    let ca_json = serde_json::to_value(&*ca)
+                        .unwrap_or(Value::Null);
                     let key = ca.id_cert().public_key.clone();
                     let sgen = self.srv_gen(srv, &key);
                     srv_state.insert(srv.into(), json!(sgen));
@@ -448,6 +463,13 @@ impl World {
                         }
                         certs.sort_by_key(|c| c.to_string());
                         iss_s.insert(child.to_string(), json!(certs));
+                        susp_s.insert(child.to_string(), json!(
+                            info.state
+                                == krill::api::ca::ChildState::Suspended
+                        ));
+                        held_s.insert(child.to_string(), json!(
+                            self.suspended_certs(&ca_json, child.as_str())
+                        ));
                     }
                 }
                 Err(e) => {
@@ -457,6 +479,8 @@ impl World {
             reg.insert(srv.into(), Value::Object(reg_s));
             ent.insert(srv.into(), Value::Object(ent_s));
             iss.insert(srv.into(), Value::Object(iss_s));
+            susp.insert(srv.into(), Value::Object(susp_s));
+            held.insert(srv.into(), Value::Object(held_s));
         }
         // publication server
         let rm = krill.repo_manager();
@@ -491,8 +515,47 @@ impl World {
         srv_state.insert("R".into(), json!(rgen));
         json!({
             "reg": reg, "ent": ent, "iss": iss, "srv": srv_state,
-            "pub": pubd, "seen": self.seen,
+            "pub": pubd, "seen": self.seen, "susp": susp, "held": held,
         })
+    }
+
+    /// The suspended certificates of a child, from the stored state of
+    /// the CA: resources.<class>.certificates.suspended, restricted to
+    /// the keys the child has used.
+    fn suspended_certs(&self, ca: &Value, child: &str) -> Vec<Value> {
+        let mut res = Vec::new();
+        let used: Vec<String> = ca.pointer(
+            &format!("/children/{child}/used_keys")
+        ).and_then(|u| u.as_object()).map(|u| {
+            u.keys().cloned().collect()
+        }).unwrap_or_default();
+        let Some(classes) = ca.get("resources").and_then(|r| r.as_object())
+        else {
+            return res
+        };
+        for class in classes.values() {
+            let Some(susp) = class.pointer("/certificates/suspended")
+                .and_then(|s| s.as_object())
+            else {
+                continue
+            };
+            for (ki, cert) in susp {
+                if !used.contains(ki) {
+                    continue
+                }
+                let name = KeyIdentifier::from_str(ki).map(|ki| {
+                    self.cakey_name(&ki)
+                }).unwrap_or_else(|_| format!("?{ki}"));
+                let set = cert.get("resources").cloned().and_then(|r| {
+                    serde_json::from_value::<ResourceSet>(r).ok()
+                }).map(|r| to_atoms(&r)).unwrap_or_else(|| {
+                    vec!["?resources".into()]
+                });
+                res.push(json!([name, set]));
+            }
+        }
+        res.sort_by_key(|c| c.to_string());
+        res
     }
 
     fn cert_entry(&self, cert: &rpki::repository::cert::Cert) -> Value {
@@ -527,7 +590,11 @@ impl World {
             );
             let Some(map) = children.as_object() else { continue };
             for (child, st) in map {
-                let h = hash_str(&st.to_string());
+                // only the record of the last exchange counts (the
+                // suspension time stamp is set by the administrator)
+                let h = hash_str(&st.get("last_exchange").map(|v| {
+                    v.to_string()
+                }).unwrap_or_default());
                 let key = (srv.to_string(), child.clone());
                 let prev = self.last_status.insert(key, h);
                 if prev.is_some() && prev != Some(h) || (
@@ -642,11 +709,13 @@ impl World {
         let target = server_handle(str_arg(m, "tgt"));
         let ua = format!("kv-auth-{}", self.reqno);
         let krill = self.env.krill.clone();
+        let tc = std::time::Instant::now();
         let outcome = guarded(|| {
             krill.ca_manager().rfc6492(
                 &target, bytes, Some(ua), &actor, &krill
             )
         });
+        T_CALL.fetch_add(tc.elapsed().as_micros() as u64, std::sync::atomic::Ordering::Relaxed);
         let after = self.finger();
         self.update_seen();
         let chg = Self::changed(&before, &after);
@@ -909,6 +978,15 @@ impl World {
         ).map_err(|e| e.to_string())
     }
 
+    fn suspend(&mut self, a: &Value) -> Result<(), String> {
+        let actor = world::actor(&self.env);
+        self.env.krill.ca_manager().ca_child_update(
+            &server_handle(str_arg(a, "srv")),
+            ChildHandle::from_str(str_arg(a, "c")).unwrap(),
+            UpdateChildRequest::suspend(), &actor, &self.env.krill,
+        ).map_err(|e| e.to_string())
+    }
+
     fn server_id(&mut self, a: &Value) -> Result<(), String> {
         let actor = world::actor(&self.env);
         self.env.krill.ca_manager().ca_update_id(
@@ -934,6 +1012,7 @@ impl World {
     fn vectors(&mut self, msgs: &[&Value]) -> (Value, Vec<Value>) {
         let mut plain = 0u64;
         let mut skipped = 0u64;
+        let mut deviating = 0u64;
         let mut emitted = Vec::new();
         for m in msgs {
             self.top_up_keys();
@@ -954,7 +1033,13 @@ impl World {
             if plain_refusal {
                 plain += 1;
             }
+            else if emitted.len() >= 10 {
+                // the first ones are written out in full, that is enough
+                // to reject the trace
+                deviating += 1;
+            }
             else {
+                deviating += 1;
                 let mut ev = serde_json::Map::new();
                 ev.insert("ev".into(), json!("Req"));
                 ev.insert("vector".into(), json!(true));
@@ -970,7 +1055,7 @@ impl World {
         }
         (json!({
             "n": msgs.len(), "refused": plain, "skipped": skipped,
-            "emitted": emitted.len(),
+            "deviating": deviating, "emitted": emitted.len(),
         }), emitted)
     }
 
@@ -1088,6 +1173,10 @@ impl World {
     }
 }
 
+pub static T_FINGER: std::sync::atomic::AtomicU64 = std::sync::atomic::AtomicU64::new(0);
+pub static T_CALL: std::sync::atomic::AtomicU64 = std::sync::atomic::AtomicU64::new(0);
+pub static T_DISK: std::sync::atomic::AtomicU64 = std::sync::atomic::AtomicU64::new(0);
+
 fn short(s: &str) -> String {
     s.chars().take(160).collect()
 }
@@ -1198,10 +1287,11 @@ pub fn run(
                         }
                     }
                 }
-                "ChildId" | "ServerId" | "PubReReg" => {
+                "ChildId" | "ServerId" | "PubReReg" | "Suspend" => {
                     let res = match name {
                         "ChildId" => w.child_id(a),
                         "ServerId" => w.server_id(a),
+                        "Suspend" => w.suspend(a),
                         _ => w.pub_rereg(a),
                     };
                     ev.insert("verdict".into(), json!(
@@ -1230,4 +1320,12 @@ pub fn run(
         let _ = std::fs::remove_dir_all(&dir);
     }
     trace.finish();
+    if std::env::var_os("VERIF_TIMING").is_some() {
+        eprintln!(
+            "timing: finger {} ms (disk {} ms), rfc6492 calls {} ms",
+            T_FINGER.load(std::sync::atomic::Ordering::Relaxed) / 1000,
+            T_DISK.load(std::sync::atomic::Ordering::Relaxed) / 1000,
+            T_CALL.load(std::sync::atomic::Ordering::Relaxed) / 1000,
+        );
+    }
 }
